@@ -5,9 +5,11 @@ CONFIG = dict(
                "of the twelve Table operations: every returned NlriChange carries exactly the exportable (ranked, eligible) paths "
                "of its prefix after the step; a prefix whose exportable list changes gets a notification with any_changed, one "
                "whose best identity (source, attributes, next hop) changes gets one with best_changed; at most one notification "
-               "per prefix and step; destination ids of live prefixes are pairwise distinct and stable; a deferring family is "
+               "per prefix and step (restale_llgr: one per re-marked usable path, all with the same paths and id); destination ids of "
+               "live prefixes are pairwise distinct and stable, the bitmap IdAllocator refines the model's id set; a deferring family is "
                "silent and the end of a deferral announces every prefix with an exportable path; and the master theorem: the C06 "
-               "reference checker (three consumers folding the stream: full, best-only, add-path) accepts every model run.  The "
+               "reference checker (three consumers keyed by the notified destination id folding the stream: full, best-only, add-path; "
+               "plus a reference path set folded from the operations that every dump must equal) accepts every model run.  The "
                "model is tied to the real code by running the real Table and the model on the same generated histories and "
                "diffing complete observations after every operation; the reference checker is the oracle on the real outputs.",
     level_note="Trusted: Lean kernel; axioms propext/Classical.choice/Quot.sound; the hand-written model (checked only by the "
